@@ -24,7 +24,7 @@ import (
 func raceChildMain() {
 	sel := os.Getenv("C10_RACE_ONLY")
 	for _, cc := range allCases() {
-		if !(cc.concurrent && cc.kind == shallow && len(cc.ops) > 0) {
+		if !(cc.concurrent && cc.kind != deep && len(cc.ops) > 0) {
 			continue
 		}
 		if sel != "" && !strings.Contains(cc.name, sel) {
